@@ -1,7 +1,7 @@
 //! C20: `Timestamp::try_from(SystemTime)` and `Timestamp::try_from(chrono::DateTime<Tz>)` on real values.
 //! An instant travels as `<secs:i64> <nanos:u32>`: `secs + nanos/1e9` seconds after the epoch (secs = floor).
 use crate::common::*;
-use chrono::{DateTime, FixedOffset, Utc};
+use chrono::{DateTime, FixedOffset, Local, NaiveDate, TimeZone, Timelike, Utc};
 use rpm::{Timestamp, TimestampError};
 use std::time::{Duration, SystemTime};
 
@@ -97,6 +97,72 @@ fn convert_file(secs: i64, nanos: u32) -> String {
     obs(r)
 }
 
+/// `tscal20 KIND Y M D h m s FRAC OFF`: a `DateTime` built from calendar fields (never from a timestamp).
+/// FRAC ≥ 1e9 is a reading inside a leap second (chrono accepts it on second 59 only).
+fn convert_calendar(kind: &str, y: i64, mo: u32, d: u32, h: u32, mi: u32, sec: u32, frac: u32, off: i32) -> Option<String> {
+    let year = match i32::try_from(y) {
+        Ok(v) => v,
+        Err(_) => return Some("unrepresentable".into()),
+    };
+    let dt: Option<DateTime<FixedOffset>> = match kind {
+        "ymd" => {
+            let tz = FixedOffset::east_opt(off)?;
+            NaiveDate::from_ymd_opt(year, mo, d)
+                .and_then(|date| date.and_hms_nano_opt(h, mi, sec, frac))
+                .and_then(|naive| naive.and_local_timezone(tz).single())
+        }
+        "rfc" => {
+            // the text is written here, digit by digit — not with chrono's formatter
+            if !(0..=9999).contains(&year) || off % 60 != 0 || off.abs() >= 86_400 || frac >= 2 * NS {
+                None
+            } else {
+                let (s_txt, f_txt) = if frac >= NS { (sec + 1, frac - NS) } else { (sec, frac) };
+                let zone = if off == 0 {
+                    "Z".to_string()
+                } else {
+                    format!("{}{:02}:{:02}", if off < 0 { '-' } else { '+' }, off.abs() / 3600, off.abs() % 3600 / 60)
+                };
+                let text = format!("{:04}-{:02}-{:02}T{:02}:{:02}:{:02}.{:09}{}", year, mo, d, h, mi, s_txt, f_txt, zone);
+                DateTime::parse_from_rfc3339(&text).ok()
+            }
+        }
+        "utc" => {
+            if off != 0 {
+                return None;
+            }
+            Utc.with_ymd_and_hms(year, mo, d, h, mi, sec).single().and_then(|t| t.with_nanosecond(frac)).map(|t| t.fixed_offset())
+        }
+        _ => return None,
+    };
+    Some(match dt {
+        None => "unrepresentable".into(),
+        Some(z) => obs(guarded(move || Timestamp::try_from(z))),
+    })
+}
+
+/// `tsloc20 TZ OFF S N`: `chrono::Local` under the environment variable TZ. chrono caches the zone per thread (and re-reads the
+/// variable at most once a second), so every request runs in a fresh thread, which reads the variable anew.
+fn convert_local(tz: &str, want_off: Option<i32>, secs: i64, nanos: u32) -> String {
+    std::env::set_var("TZ", tz);
+    let r = std::thread::spawn(move || -> String {
+        let made = guarded(move || Local.timestamp_opt(secs, nanos).single());
+        match made {
+            Err(_) | Ok(None) => "unrepresentable".into(),
+            Ok(Some(dt)) => {
+                let shown = dt.offset().local_minus_utc();
+                if want_off.map(|w| w != shown).unwrap_or(false) {
+                    return "tzignored".into();
+                }
+                obs(guarded(move || Timestamp::try_from(dt)))
+            }
+        }
+    })
+    .join()
+    .unwrap_or_else(|_| "panic".into());
+    std::env::remove_var("TZ");
+    r
+}
+
 pub fn eval(op: &str, a: &[&str]) -> Option<String> {
     let i = |s: &str| s.parse::<i64>().ok();
     let n = |s: &str| s.parse::<u32>().ok();
@@ -105,6 +171,49 @@ pub fn eval(op: &str, a: &[&str]) -> Option<String> {
         "tssys" if a.len() == 2 => convert("sys", i(a[0])?, n(a[1])?, 0),
         "tsfile" if a.len() == 2 => Some(convert_file(i(a[0])?, n(a[1])?)),
         "tsutc" if a.len() == 2 => convert("utc", i(a[0])?, n(a[1])?, 0),
+        "tscal20" if a.len() == 9 => convert_calendar(a[0], i(a[1])?, n(a[2])?, n(a[3])?, n(a[4])?, n(a[5])?, n(a[6])?, n(a[7])?, o(a[8])?),
+        // `DateTime::from(SystemTime)`: chrono's own conversion of a system time (it panics outside chrono's range: then the
+        // value cannot be built and the answer is `unrepresentable`)
+        "tsst20" if a.len() == 3 => {
+            let (secs, nanos) = (i(a[1])?, n(a[2])?);
+            if nanos >= NS {
+                return None;
+            }
+            Some(match system_time(secs, nanos) {
+                None => "unrepresentable".into(),
+                Some(st) => match a[0] {
+                    "utc" => match guarded(move || DateTime::<Utc>::from(st)) {
+                        Err(_) => "unrepresentable".into(),
+                        Ok(dt) => obs(guarded(move || Timestamp::try_from(dt))),
+                    },
+                    "loc" => match guarded(move || DateTime::<Local>::from(st)) {
+                        Err(_) => "unrepresentable".into(),
+                        Ok(dt) => obs(guarded(move || Timestamp::try_from(dt))),
+                    },
+                    _ => return None,
+                },
+            })
+        }
+        "tsloc20" if a.len() == 4 => {
+            let tz = String::from_utf8(unhx(a[0])).ok()?;
+            let want = if a[1] == "-" { None } else { Some(o(a[1])?) };
+            let (secs, nanos) = (i(a[2])?, n(a[3])?);
+            if nanos >= NS {
+                return None;
+            }
+            Some(convert_local(&tz, want, secs, nanos))
+        }
+        // the real `Timestamp::now()` (no override): it must lie between two readings of the system clock
+        "tsnow20" if a.is_empty() => {
+            let secs_now = || SystemTime::now().duration_since(SystemTime::UNIX_EPOCH).map(|d| d.as_secs()).unwrap_or(0);
+            let before = secs_now();
+            let r = guarded(Timestamp::now);
+            let after = secs_now();
+            Some(match r {
+                Err(_) => "panic".into(),
+                Ok(t) => if before <= u32::from(t) as u64 && u32::from(t) as u64 <= after { "in".into() } else { "out".into() },
+            })
+        }
         "tsfix" if a.len() == 3 => convert("fix", i(a[0])?, n(a[1])?, o(a[2])?),
         "tspair" if a.len() == 8 => {
             LAST.with(|c| c.set(None));
@@ -237,9 +346,151 @@ fn req_of(kind: &str, secs: i64, nanos: u32, off: i32) -> String {
     }
 }
 
+/// civil date of a day number (days since 1970-01-01), proleptic Gregorian calendar — the harness's own arithmetic
+/// (H. Hinnant's `civil_from_days`), independent of chrono and of the Lean `daysFromCivil`
+fn civil_from_days(z: i64) -> (i64, u32, u32) {
+    let z = z + 719_468;
+    let era = z.div_euclid(146_097);
+    let doe = z.rem_euclid(146_097);
+    let yoe = (doe - doe / 1460 + doe / 36_524 - doe / 146_096) / 365;
+    let y = yoe + era * 400;
+    let doy = doe - (365 * yoe + yoe / 4 - yoe / 100);
+    let mp = (5 * doy + 2) / 153;
+    let d = (doy - (153 * mp + 2) / 5 + 1) as u32;
+    let m = if mp < 10 { mp + 3 } else { mp - 9 } as u32;
+    (if m <= 2 { y + 1 } else { y }, m, d)
+}
+
+/// the calendar request for the instant `secs` (+ `frac` ns) read on a wall clock `off` seconds east of UTC
+fn cal_req(kind: &str, secs: i64, frac: u32, off: i32) -> String {
+    let local = secs + off as i64;
+    let (y, m, d) = civil_from_days(local.div_euclid(86_400));
+    let t = local.rem_euclid(86_400);
+    format!("tscal20 {} {} {} {} {} {} {} {} {}", kind, y, m, d, t / 3600, t % 3600 / 60, t % 60, frac, off)
+}
+
+/// POSIX zone texts (no tz database needed): with daylight-saving rules, fixed offsets with minutes, whole hours, the extremes
+const ZONES: &[&str] = &[
+    "UTC0", "EST5EDT,M3.2.0,M11.1.0", "CET-1CEST,M3.5.0,M10.5.0/3", "NST3:30NDT,M3.2.0,M11.1.0", "LHST-10:30LHDT-11,M10.1.0,M4.1.0",
+    "<+0545>-5:45", "<-0930>9:30", "<+14>-14", "<-12>12", "IST-5:30", "<+1245>-12:45NZDT,M9.5.0/2:45,M4.1.0/3:45",
+];
+
 pub fn gen(ctx: &mut Ctx) {
     let (si, sn) = ctx.shard;
     let offs = offsets();
+
+    // 0. AUDIT2 b22 / a23: date-times that are NOT made by `from_timestamp` —
+    //    calendar fields (`NaiveDate` + `and_local_timezone`, `Utc.with_ymd_and_hms`), RFC 3339 texts, `DateTime::from(SystemTime)`,
+    //    `Local` under a set TZ, and readings inside a leap second built each of these ways
+    {
+        let mut k = 0u64;
+        let mut put = |ctx: &mut Ctx, line: String| {
+            k += 1;
+            if k % sn == si {
+                ctx.req(&line);
+            }
+        };
+        let cal_offs = [0i32, 3600, -3600, 19_800, -12_600, 20_700, 50_400, -43_200, 86_399, -86_399, -1521, 1];
+        for centre in [0i64, TWO31, TWO32] {
+            for dlt in -70i64..=70 {
+                let secs = centre + dlt;
+                for frac in [0u32, 999_999_999] {
+                    for (j, off) in cal_offs.iter().enumerate() {
+                        if dlt.abs() > 3 && (dlt.rem_euclid(cal_offs.len() as i64) as usize) != j {
+                            continue;
+                        }
+                        put(ctx, cal_req("ymd", secs, frac, *off));
+                        if off % 60 == 0 {
+                            put(ctx, cal_req("rfc", secs, frac, *off));
+                        }
+                    }
+                    put(ctx, cal_req("utc", secs, frac, 0));
+                    put(ctx, format!("tsst20 utc {} {}", secs, frac));
+                    put(ctx, format!("tsst20 loc {} {}", secs, frac));
+                }
+                // a leap-second reading on every wall-clock second that is a :59 (in the zone's own minutes)
+                // (offset 44 s puts a wall-clock :59 on the UTC second 2^32 - 1, offset -16 s on 2^32 + 15, …)
+                for off in [0i32, 3600, -12_600, 20_700, -1521, 44, -16, 1] {
+                    if (secs + off as i64).rem_euclid(60) == 59 {
+                        for extra in [0u32, 1, 999_999_999] {
+                            put(ctx, cal_req("ymd", secs, NS + extra, off));
+                            if off % 60 == 0 {
+                                put(ctx, cal_req("rfc", secs, NS + extra, off));
+                            }
+                            if off == 0 {
+                                put(ctx, cal_req("utc", secs, NS + extra, 0));
+                            }
+                        }
+                    }
+                }
+                // `Local` under every zone text (offset not stated: it depends on the rule)
+                for (j, tz) in ZONES.iter().enumerate() {
+                    if dlt.abs() <= 2 || (dlt.rem_euclid(ZONES.len() as i64) as usize) == j {
+                        put(ctx, format!("tsloc20 {} - {} {}", hx(tz.as_bytes()), secs, if dlt % 2 == 0 { 0 } else { 999_999_999 }));
+                    }
+                }
+            }
+        }
+        // the zone texts do take effect: instants with the offset the rule must show (winter / summer of 2021, both hemispheres)
+        for (tz, secs, off) in [
+            ("EST5EDT,M3.2.0,M11.1.0", 1_610_712_000i64, -18_000i32), ("EST5EDT,M3.2.0,M11.1.0", 1_626_350_400, -14_400),
+            ("CET-1CEST,M3.5.0,M10.5.0/3", 1_610_712_000, 3600), ("CET-1CEST,M3.5.0,M10.5.0/3", 1_626_350_400, 7200),
+            ("LHST-10:30LHDT-11,M10.1.0,M4.1.0", 1_610_712_000, 39_600), ("LHST-10:30LHDT-11,M10.1.0,M4.1.0", 1_626_350_400, 37_800),
+            ("<+0545>-5:45", 0, 20_700), ("<-0930>9:30", TWO32 - 1, -34_200), ("<+14>-14", TWO32, 50_400), ("<-12>12", -1, -43_200),
+            ("UTC0", TWO31, 0), ("NST3:30NDT,M3.2.0,M11.1.0", 1_610_712_000, -12_600), ("NST3:30NDT,M3.2.0,M11.1.0", 1_626_350_400, -9000),
+        ] {
+            put(ctx, format!("tsloc20 {} {} {} 0", hx(tz.as_bytes()), off, secs));
+            put(ctx, format!("tsloc20 {} {} {} 999999999", hx(tz.as_bytes()), off, secs));
+        }
+        // calendar corner dates: leap days, century years, year ends, far years, invalid fields (chrono refuses them)
+        for (y, m, d) in [
+            (1970i64, 1u32, 1u32), (1969, 12, 31), (2000, 2, 29), (2100, 2, 28), (2100, 3, 1), (2038, 1, 19), (2106, 2, 7), (2106, 2, 8), (1999, 12, 31),
+            (2024, 2, 29), (2023, 2, 28), (1600, 2, 29), (1, 1, 1), (0, 12, 31), (9999, 12, 31), (-1, 3, 1), (-400, 2, 29), (200_000, 6, 15), (-200_000, 6, 15),
+            (2023, 2, 29), (2100, 2, 29), (2024, 4, 31), (2024, 13, 1), (2024, 0, 10), (2024, 5, 0),
+        ] {
+            for (h, mi, s) in [(0u32, 0u32, 0u32), (23, 59, 59), (6, 28, 15), (6, 28, 16), (12, 0, 60), (24, 0, 0)] {
+                for off in [0i32, 20_700, -12_600] {
+                    put(ctx, format!("tscal20 ymd {} {} {} {} {} {} 0 {}", y, m, d, h, mi, s, off));
+                    if off % 60 == 0 {
+                        put(ctx, format!("tscal20 rfc {} {} {} {} {} {} 500000000 {}", y, m, d, h, mi, s, off));
+                    }
+                }
+                put(ctx, format!("tscal20 utc {} {} {} {} {} {} 1 0", y, m, d, h, mi, s));
+            }
+        }
+        // seeded: any instant of ±2^36 s, any of the constructions
+        let n = ctx.q(30_000u64, 400_000);
+        for _ in 0..n {
+            let secs = match ctx.rng.below(3) {
+                0 => pick_secs_inside(&mut ctx.rng),
+                1 => *ctx.rng.pick(&[0i64, TWO31, TWO32]) + ctx.rng.range(-100_000, 100_000),
+                _ => ctx.rng.range(-(1i64 << 36), 1i64 << 36),
+            };
+            let frac = pick_nanos(&mut ctx.rng);
+            let off = match ctx.rng.below(3) {
+                0 => *ctx.rng.pick(&offs),
+                1 => (ctx.rng.range(-1439, 1439) * 60) as i32,
+                _ => ctx.rng.range(-86_399, 86_399) as i32,
+            };
+            let line = match ctx.rng.below(6) {
+                0 => cal_req("ymd", secs, frac, off),
+                1 => cal_req("rfc", secs, frac, off - off % 60),
+                2 => cal_req("utc", secs, frac, 0),
+                3 => format!("tsst20 {} {} {}", if ctx.rng.chance(1, 2) { "utc" } else { "loc" }, secs, frac),
+                4 => format!("tsloc20 {} - {} {}", hx(ctx.rng.pick(ZONES).as_bytes()), secs, frac),
+                _ => {
+                    // a leap reading: move to the :59 of the wall-clock minute
+                    let local = secs + off as i64;
+                    let s59 = local - local.rem_euclid(60) + 59 - off as i64;
+                    cal_req("ymd", s59, NS + frac, off)
+                }
+            };
+            put(ctx, line);
+        }
+        if si == 0 {
+            ctx.req("tsnow20");
+        }
+    }
 
     // 1. every second in ±2000 around 0, 2^31 and 2^32, four sub-second offsets each;
     //    SystemTime, DateTime<Utc>, and fixed-offset zones: all of them for the seconds within ±3 of a
